@@ -46,7 +46,18 @@ def run_scenarios(run, scenarios, limit_per_scenario, family, prefix='c07'):
             run.count('schedules_predicted_unsafe_by_model', sum(1 for s in scheds if not s['snapshot']))
             recs = []
             for s in scheds:
-                rec = lab.execute(sc, s['sched'])
+                try:
+                    rec = lab.execute(sc, s['sched'])
+                except MachineryError:
+                    # e.g. an operation died in the middle of its program: start again with a fresh pair, once
+                    try:
+                        lab.close()
+                    except Exception:  # noqa: BLE001
+                        pass
+                    lab = Lab()
+                    for name in sc:
+                        lab.record_program(name)
+                    rec = lab.execute(sc, s['sched'])
                 rec['predicted_snapshot'] = s['snapshot']
                 recs.append(rec)
                 run.distinct_traces.add((sc, tuple(s['sched'])))
@@ -70,10 +81,11 @@ def run_scenarios(run, scenarios, limit_per_scenario, family, prefix='c07'):
 
 
 def _strip(rec):
-    return {k: rec[k] for k in ('reads', 'phist', 'wire')}
+    return {k: rec[k] for k in ('reads', 'phist', 'wire', 'errors')}
 
 
-FAMILY = {'label_is_a_version_that_existed', 'snapshot_content', 'snapshot_selection', 'each_at_most_once'}
+FAMILY = {'label_is_a_version_that_existed', 'snapshot_content', 'snapshot_selection', 'each_at_most_once',
+          'request_answered'}
 
 
 def check(run, replay_path=None):
